@@ -699,6 +699,55 @@ def body_sphere(case, ctx):
             ctx.fail("k+1 points in R^(k+1) do not determine a sphere: GeometryError expected")
 
 
+@st.composite
+def lattice_sphere_case(draw):
+    """D+1 lattice points whose difference matrix is lower triangular with a non-zero
+    diagonal (general position by construction), in integer packagings"""
+    D = draw(st.integers(1, 4))
+    p0 = [draw(st.integers(-4, 4)) for _ in range(D)]
+    pts = [list(p0)]
+    for i in range(D):
+        row = [draw(st.integers(-3, 3)) if j < i else 0 for j in range(D)]
+        row[i] = draw(st.sampled_from([-4, -3, -2, -1, 1, 2, 3, 4]))
+        pts.append([a + b for a, b in zip(p0, row)])
+    order = draw(st.permutations(list(range(D + 1))))
+    return dict(D=D, pts=[pts[i] for i in order],
+                # (ndarrays only: the helper is documented for ndarray input and reads points.shape)
+                how=draw(st.sampled_from(["int64", "int32", "float"])),
+                batch=draw(st.booleans()))
+
+
+def body_lattice_sphere(case, ctx):
+    D = case["D"]
+    P = np.array(case["pts"], dtype=float)
+    ctx.label("D=%d" % D, "how=" + case["how"], "n>=3" if D >= 3 else "",
+              "batch" if case["batch"] else "")
+    arg = {"int64": lambda: P.astype(np.int64), "int32": lambda: P.astype(np.int32),
+           "list": lambda: P.astype(int).tolist(), "float": lambda: P.copy()}[case["how"]]()
+    if case["batch"]:
+        arg = np.stack([np.asarray(arg), np.asarray(arg)[::-1]]) if case["how"] != "list" else \
+            [arg, arg[::-1]]
+    c, r = utils.sphere_through(arg)
+    c, r = np.asarray(c, dtype=float), np.asarray(r, dtype=float)
+    want_c = np.linalg.solve(2 * (P[1:] - P[0]), np.sum(P[1:] ** 2, axis=-1) - np.sum(P[0] ** 2))
+    want_r = np.linalg.norm(P[0] - want_c)
+    cond = float(np.linalg.cond(P[1:] - P[0]))
+    for cc, rr in (zip(c, r) if case["batch"] else [(c, r)]):
+        ctx.check(rr > 0, "positive radius", r=rr)
+        ctx.close("every lattice point is at distance r from the centre",
+                  np.linalg.norm(P - cc, axis=-1), np.full(D + 1, rr), rtol=0,
+                  atol=1e-11 * cond * (1 + want_r))
+        ctx.close("centre of the sphere through lattice points", cc, want_c, rtol=0,
+                  atol=1e-11 * cond * (1 + want_r))
+    if D == 2 and not case["batch"]:
+        a = np.asarray(arg)
+        c2, r2 = utils.circle_through(a[0], a[1], a[2])
+        ctx.close("circle_through lattice points: centre", np.asarray(c2, dtype=float), want_c,
+                  rtol=0, atol=1e-11 * cond * (1 + want_r))
+        ctx.close("circle_through lattice points: radius", float(r2), want_r, rtol=0,
+                  atol=1e-11 * cond * (1 + want_r))
+
+
 # ---------------------------------------------------------------------------
 SPECIAL_ANGLES = [0.0, math.pi / 2, -math.pi / 2, math.pi, -math.pi, math.pi / 4]
 MARGIN = 1e-3
@@ -895,6 +944,8 @@ LAWS = [
         thorough=1000, shards=(1, 2)),
     Law("sphere_through", sphere_case(), body_sphere, _nt_dim, quick=150, thorough=1500,
         shards=(1, 4)),
+    Law("sphere_through_lattice_points", lattice_sphere_case(), body_lattice_sphere,
+        lambda l: "how=float" not in l, quick=200, thorough=1500, shards=(1, 3)),
     Law("circle_through", sphere_case(circle=True), body_sphere, lambda l: True, quick=100,
         thorough=1000, shards=(1, 2)),
     Law("short_arc", arc_case("short_arc"), body_short_arc, _nt_arc, quick=250, thorough=2500,
